@@ -16,7 +16,7 @@ STRENGTHENED = {
 for d in sorted(glob.glob('/verif/seeded/C*_*')):
     name = os.path.basename(d)
     pid, n = name.split('_')
-    rnd = 1 if int(n) <= 2 else 2
+    rnd = 1 if int(n) <= 2 else (2 if int(n) <= 4 else 3)
     meta = {}
     if os.path.exists(d + '/agent_meta.json'):
         meta = json.load(open(d + '/agent_meta.json'))
@@ -29,6 +29,7 @@ for d in sorted(glob.glob('/verif/seeded/C*_*')):
         "what_it_breaks": meta.get("what_it_breaks"),
         "needs_to_manifest": meta.get("needs_to_manifest"),
         "why_existing_tests_pass": meta.get("why_existing_tests_pass"),
+        "kind": meta.get("kind"),
         "origin": "round %d: written by a fresh sub-agent that was given only the text of property %s and a scratch git worktree of /repo under /tmp (nothing from /verif)" % (rnd, pid),
     }
     conf = d + '/confirm.txt'
@@ -38,9 +39,13 @@ for d in sorted(glob.glob('/verif/seeded/C*_*')):
         seen = []
         for l in lines:
             if l not in seen: seen.append(l)
-        out["confirmed_by_main_agent"] = {"how": "tools/confirm_seeded.sh in a separate scratch worktree (removed afterwards): git apply --check; demo as tests/demo_seed.rs on HEAD; patch applied; cargo build (default and serde,base64); cargo test --lib (both feature sets); demo again", "result": seen}
+        out["confirmed_by_main_agent"] = {"how": "tools/confirm_seeded.sh (round 3: tools/confirm3.sh) in a separate scratch worktree (removed afterwards): git apply --check; demo as tests/demo_seed.rs on HEAD; patch applied; cargo build (default and serde,base64); cargo test --lib (both feature sets); demo again", "result": seen}
     elif "confirmed_by_main_agent" in meta:
         out["confirmed_by_main_agent"] = meta["confirmed_by_main_agent"]
+    old = json.load(open(d + '/meta.json')) if os.path.exists(d + '/meta.json') else {}
+    for k in ('detection', 'history', 'confirmed_by_main_agent'):
+        if k in old and k not in out:
+            out[k] = old[k]
     log = d + '/last_run_quick.log'
     if os.path.exists(log):
         txt = open(log).read()
